@@ -134,6 +134,28 @@ def resolve_callable(repo, fi, expr, cfg, rd, at_node_stmt):
             st = cfg.stmt[d]
             if isinstance(st, ast.Assign) and len(st.targets) == 1:
                 out += resolve_callable(repo, fi, st.value, cfg, rd, st)
+            elif isinstance(st, (ast.For, ast.AsyncFor)) and isinstance(st.target, (ast.Tuple, ast.List)) \
+                    and any(isinstance(e, ast.Name) and e.id == expr.id for e in st.target.elts):
+                # `for key, kernel in TABLE: if sel == key: break` with TABLE a literal sequence of rows: the kernel column holds the alternatives
+                col = [i for i, e in enumerate(st.target.elts) if isinstance(e, ast.Name) and e.id == expr.id][0]
+                it = st.iter
+                if isinstance(it, ast.Name):
+                    idefs = rd.at(cfg.node(st), it.id) - {ENTRY}
+                    if len(idefs) == 1 and isinstance(cfg.stmt[next(iter(idefs))], ast.Assign):
+                        it = cfg.stmt[next(iter(idefs))].value
+                    elif not idefs and it.id in fi.module.consts:
+                        it = fi.module.consts[it.id]
+                if isinstance(it, ast.Call) and isinstance(it.func, ast.Attribute) and it.func.attr == "items" and isinstance(it.func.value, ast.Dict) \
+                        and len(st.target.elts) == 2:
+                    rows = [ast.Tuple(elts=[k_, v_], ctx=ast.Load()) for k_, v_ in zip(it.func.value.keys, it.func.value.values)]
+                elif isinstance(it, (ast.Tuple, ast.List)):
+                    rows = it.elts
+                else:
+                    raise AnalysisError(f"kernel '{expr.id}' in {fi.qualname} bound by a loop over a table that is not a literal")
+                for r_ in rows:
+                    if not (isinstance(r_, (ast.Tuple, ast.List)) and len(r_.elts) == len(st.target.elts)):
+                        raise AnalysisError(f"kernel '{expr.id}' in {fi.qualname} bound by a loop over a table that is not a literal")
+                    out += resolve_callable(repo, fi, r_.elts[col], cfg, rd, st)
             else:
                 raise AnalysisError(f"kernel '{expr.id}' in {fi.qualname} bound by unsupported statement")
         return out
